@@ -415,9 +415,9 @@ func extractAccountPrefix(content string, pos protocol.Position) string {
 
 	start := strings.LastIndexAny(beforeCursor[:lastColon], " \t")
 	if start == -1 {
-		return beforeCursor[:lastColon+1]
+		return strings.TrimLeft(beforeCursor[:lastColon+1], "([")
 	}
-	return beforeCursor[start+1 : lastColon+1]
+	return strings.TrimLeft(beforeCursor[start+1:lastColon+1], "([")
 }
 
 func getAccountsForPrefix(accounts *analyzer.AccountIndex, prefix string) []string {
@@ -677,8 +677,7 @@ func calculateTextEditRange(content string, pos protocol.Position, ctxType Compl
 		} else if strings.HasPrefix(line, directiveApplyAccount) {
 			startByte = len(directiveApplyAccount)
 		} else {
-			trimmed := strings.TrimLeft(line[:byteCol], " \t")
-			startByte = byteCol - len(trimmed)
+			startByte = postingAccountStart(line[:byteCol])
 		}
 	case ContextCommodity:
 		if strings.HasPrefix(line, directiveCommodity) {
@@ -687,12 +686,8 @@ func calculateTextEditRange(content string, pos protocol.Position, ctxType Compl
 			startByte = findCommodityStart(line, byteCol)
 		}
 	case ContextPayee:
-		spaceIdx := strings.Index(line[:byteCol], " ")
-		if spaceIdx != -1 {
-			startByte = spaceIdx + 1
-			for startByte < byteCol && (line[startByte] == ' ' || line[startByte] == '*' || line[startByte] == '!') {
-				startByte++
-			}
+		if strings.Contains(line[:byteCol], " ") {
+			startByte = payeeStart(line[:byteCol])
 		}
 	default:
 		return nil
@@ -710,18 +705,76 @@ func calculateTextEditRange(content string, pos protocol.Position, ctxType Compl
 }
 
 func findCommodityStart(line string, byteCol int) int {
-	parts := parsePosting(line)
+	parts := parsePosting(line[:byteCol])
 	if parts.separatorIdx == -1 {
 		return byteCol
 	}
 
-	commodityStart := parts.indent + parts.separatorIdx + parts.skipSpaces + parts.amountEnd
+	// the amount the cursor is in: the posting's own, or that of its cost or assertion
+	segment := lastAmountSegment(parts.afterAccount)
+	segmentStart := parts.indent + parts.separatorIdx + parts.skipSpaces + len(parts.afterAccount) - len(segment)
+	commodityStart := segmentStart + findAmountEnd(segment)
 
-	for commodityStart < len(line) && line[commodityStart] == ' ' {
+	for commodityStart < byteCol && line[commodityStart] == ' ' {
 		commodityStart++
 	}
 
 	return commodityStart
+}
+
+// lastAmountSegment returns what follows the last cost or assertion operator of the
+// text after the account ("10 EUR @ 2 US" -> "2 US"), or the text itself.
+func lastAmountSegment(afterAccount string) string {
+	if i := strings.LastIndexAny(afterAccount, "@="); i != -1 {
+		return strings.TrimLeft(afterAccount[i+1:], " ")
+	}
+	return afterAccount
+}
+
+// postingAccountStart is the offset at which the account name of a posting line begins:
+// after the indent, an optional status mark and an optional '(' or '['.
+func postingAccountStart(beforeCursor string) int {
+	i := 0
+	skipBlanks := func() {
+		for i < len(beforeCursor) && (beforeCursor[i] == ' ' || beforeCursor[i] == '\t') {
+			i++
+		}
+	}
+	skipBlanks()
+	if i < len(beforeCursor) && (beforeCursor[i] == '*' || beforeCursor[i] == '!') {
+		i++
+		skipBlanks()
+	}
+	if i < len(beforeCursor) && (beforeCursor[i] == '(' || beforeCursor[i] == '[') {
+		i++
+	}
+	return i
+}
+
+// payeeStart is the offset at which the description of a transaction header begins:
+// after the date(s), an optional status mark and an optional (code).
+func payeeStart(beforeCursor string) int {
+	i := strings.Index(beforeCursor, " ")
+	if i == -1 {
+		return len(beforeCursor)
+	}
+	skipBlanks := func() {
+		for i < len(beforeCursor) && (beforeCursor[i] == ' ' || beforeCursor[i] == '\t') {
+			i++
+		}
+	}
+	skipBlanks()
+	if i < len(beforeCursor) && (beforeCursor[i] == '*' || beforeCursor[i] == '!') {
+		i++
+		skipBlanks()
+	}
+	if i < len(beforeCursor) && beforeCursor[i] == '(' {
+		if end := strings.IndexByte(beforeCursor[i:], ')'); end != -1 {
+			i += end + 1
+			skipBlanks()
+		}
+	}
+	return i
 }
 
 func extractQueryText(content string, pos protocol.Position, ctxType CompletionContextType) string {
@@ -746,15 +799,13 @@ func extractQueryText(content string, pos protocol.Position, ctxType CompletionC
 		if after, found := strings.CutPrefix(beforeCursor, directiveApplyAccount); found {
 			return after
 		}
-		trimmed := strings.TrimLeft(beforeCursor, " \t")
-		return trimmed
+		return beforeCursor[postingAccountStart(beforeCursor):]
 
 	case ContextPayee:
-		_, after, found := strings.Cut(beforeCursor, " ")
-		if !found {
+		if !strings.Contains(beforeCursor, " ") {
 			return ""
 		}
-		return strings.TrimLeft(after, " ")
+		return beforeCursor[payeeStart(beforeCursor):]
 
 	case ContextTagName, ContextTagValue:
 		// What has been typed of the tag name (after ';' or the last ',') or of the
@@ -782,7 +833,7 @@ func extractQueryText(content string, pos protocol.Position, ctxType CompletionC
 		if separatorIdx == -1 {
 			return ""
 		}
-		afterAccount := strings.TrimLeft(trimmed[separatorIdx:], " ")
+		afterAccount := lastAmountSegment(strings.TrimLeft(trimmed[separatorIdx:], " "))
 		amountEnd := findAmountEnd(afterAccount)
 		if amountEnd >= len(afterAccount) {
 			return ""
